@@ -2,7 +2,7 @@ PROP = dict(
     lean_modules=["DefraModel.Props.C09"],
     props_modules=["DefraModel.Props.C09"],
     engines=[dict(name="rel", drv="rel", timeout=5400)],
-    oracle_tags=["index-changes-join", "index-changes-mutation", "order-inversion-drops-unrelated", "order-through-relation", "one-to-one-double-link", "request-hangs-or-panics", "panic"],
+    oracle_tags=["index-changes-join", "index-changes-mutation", "order-inversion-drops-unrelated", "order-through-relation", "one-to-one-double-link", "relation-sides-disagree", "request-hangs-or-panics", "panic"],
     rule=("twin nodes differing only in secondary indexes (on the foreign key, on the filtered fields, or both) in four topologies: one-to-many, one-to-one, self-referencing one-to-many, two hops "
           "(Publisher -> Author -> Book); PRNG-generated documents (names from a pool of 3, x in 0..5 or null, 5/6 linked), then relinks, unlinks, value updates and deletes of either side "
           "(and attempts at a second holder of a one-to-one link); then requests from both sides: related lists, parents, by-foreign-key filters, filters through the relation in both directions "
